@@ -242,7 +242,8 @@ def spec(self, inputs, kwargs):
             ok = ok_iter and nf.equal(got, want)
     ctx.ob("C05.c", "Conv2D output size = floor((size + 2p - d(k-1) - 1)/s + 1) per spatial dim", ok, f"computes {nf.show(got)}" if got is not None else "formula not found", init.where)
     syn = [x for x in P.calls_in(init) if dotted(x.func) == "synapse"]
-    ok = len(syn) == 1 and ast.unparse(syn[0].args[0]) == "(self.channels * math.prod(self.kernel), self.outheight * self.outwidth)"
+    ok = len(syn) == 1 and bool(syn[0].args) and nf.equal(terms.Builder(P, init, {}, inline_depth=0).t(syn[0].args[0]),
+                                                           specs.spec_term("(self.channels * math.prod(self.kernel), self.outheight * self.outwidth)"))
     ctx.ob("C05.c", "Conv2D synapse shape = (C*kh*kw, oh*ow)", ok, "", init.where)
     o = conv.props["outshape"]["get"]
     ok = ast.unparse([s for s in walk_own(o.node) if isinstance(s, ast.Return)][0].value) == "(self.filters, self.outheight, self.outwidth)"
